@@ -111,6 +111,10 @@ def show(e, full=False):
         return p(e[1], L_UNARY) + "`" + ns
     if k == "call":
         return e[1] + "(" + ", ".join(show(a, full) for a in e[2]) + ")"
+    if k == "block":
+        return "{ " + ", ".join(show(a, full) for a in e[1]) + " }"
+    if k == "assign":
+        return e[1] + " = " + show(e[2], full)
     raise ValueError(k)
 
 
@@ -269,6 +273,14 @@ def ev(e, env):
         return ("int", bits_of(x[1], n[1], 0), n[1])
     if k == "call":
         return ev_call(e, env)
+    if k == "block":
+        r = ("void",)
+        for x in e[1]:
+            r = ev(x, env)
+        return r
+    if k == "assign":
+        env.locals[e[1]] = ev(e[2], env)
+        return ("void",)
     raise ValueError(k)
 
 
